@@ -253,62 +253,60 @@ theorem validV_of_decl {doc : Doc} {defs : List (List VarDef)} {vars : Vars} (h 
     request is rejected with a depth error IFF some operation selected by the filter has a specified depth,
     under ITS coerced variables, greater than `n` — for every `n ≥ 0` (0 included), every filter, whatever
     the default validator reports. -/
-theorem pipeline_rejects_iff (doc : Doc) (defs : List (List VarDef)) (vars : Vars) (hv : ValidDeclV doc defs vars)
-    (n : Nat) (filter : Option String) (defaultErrors : Nat) :
-    (∀ e, pipeline doc.fuel n filter doc defs vars defaultErrors ≠ .raised e) ∧
-    ((pipeline doc.fuel n filter doc defs vars defaultErrors).depthRejected = true ↔
-      ∃ i op, doc.ops[i]? = some op ∧ opSelected filter op = true ∧ depthV doc defs vars i op > n) ∧
-    (pipeline doc.fuel n filter doc defs vars defaultErrors = .executed ↔
-      defaultErrors = 0 ∧ ∀ i op, doc.ops[i]? = some op → opSelected filter op = true → depthV doc defs vars i op ≤ n) := by
-  have hV := validV_of_decl hv
-  have he := ruleV_eq_expected doc defs vars hV n filter doc.fuel (Nat.le_refl _)
-  have hmem := mem_expected (depthV doc defs vars) n filter doc.ops 0
-  -- the error list is empty iff no selected operation is too deep
-  have hempty : expected (depthV doc defs vars) n filter 0 doc.ops = [] ↔
-      ∀ i op, doc.ops[i]? = some op → opSelected filter op = true → depthV doc defs vars i op ≤ n := by
+private theorem outcome_generic (ops : List Op) (D : Nat → Op → Nat) (n : Nat) (filter : Option String)
+    (r : Except Err (List (Nat × Nat))) (he : r = .ok (expected D n filter 0 ops)) (defaultErrors : Nat) :
+    (∀ e, outcomeOf r defaultErrors ≠ .raised e) ∧
+    ((outcomeOf r defaultErrors).depthRejected = true ↔
+      ∃ i op, ops[i]? = some op ∧ opSelected filter op = true ∧ D i op > n) ∧
+    (outcomeOf r defaultErrors = .executed ↔
+      defaultErrors = 0 ∧ ∀ i op, ops[i]? = some op → opSelected filter op = true → D i op ≤ n) := by
+  have hmem := mem_expected D n filter ops 0
+  have hempty : expected D n filter 0 ops = [] ↔
+      ∀ i op, ops[i]? = some op → opSelected filter op = true → D i op ≤ n := by
     constructor
     · intro h i op hi hs
-      by_cases hd : depthV doc defs vars i op > n
+      by_cases hd : D i op > n
       · have := (hmem i _).mpr ⟨op, by omega, by simpa using hi, hs, hd, rfl⟩
         rw [h] at this; cases this
       · omega
     · intro h
-      cases hx : expected (depthV doc defs vars) n filter 0 doc.ops with
+      cases hx : expected D n filter 0 ops with
       | nil => rfl
       | cons x xs =>
         obtain ⟨j, d⟩ := x
-        have : (j, d) ∈ expected (depthV doc defs vars) n filter 0 doc.ops := by rw [hx]; simp
+        have : (j, d) ∈ expected D n filter 0 ops := by rw [hx]; simp
         obtain ⟨op, _, h2, h3, h4, _⟩ := (hmem j d).mp this
         have := h j op (by simpa using h2) h3
         omega
+  subst he
   refine ⟨?_, ?_, ?_⟩
   · intro e
-    simp only [pipeline, he]
+    simp only [outcomeOf]
     split <;> simp
-  · simp only [pipeline, he]
+  · simp only [outcomeOf]
     constructor
     · intro h
-      by_cases hnil : expected (depthV doc defs vars) n filter 0 doc.ops = []
+      by_cases hnil : expected D n filter 0 ops = []
       · rw [hnil] at h
         split at h <;> simp [Outcome.depthRejected] at h
-      · by_cases hex : ∃ i op, doc.ops[i]? = some op ∧ opSelected filter op = true ∧ depthV doc defs vars i op > n
+      · by_cases hex : ∃ i op, ops[i]? = some op ∧ opSelected filter op = true ∧ D i op > n
         · exact hex
         · exfalso
           apply hnil
           apply hempty.mpr
           intro i op hi hs
-          by_cases hd : depthV doc defs vars i op ≤ n
+          by_cases hd : D i op ≤ n
           · exact hd
           · exact absurd ⟨i, op, hi, hs, by omega⟩ hex
     · rintro ⟨i, op, hi, hs, hd⟩
-      have hne : expected (depthV doc defs vars) n filter 0 doc.ops ≠ [] := by
+      have hne : expected D n filter 0 ops ≠ [] := by
         intro h
         have := hempty.mp h i op hi hs
         omega
-      cases hx : expected (depthV doc defs vars) n filter 0 doc.ops with
+      cases hx : expected D n filter 0 ops with
       | nil => exact absurd hx hne
       | cons x xs => simp [Outcome.depthRejected]
-  · simp only [pipeline, he]
+  · simp only [outcomeOf]
     constructor
     · intro h
       split at h
@@ -317,6 +315,87 @@ theorem pipeline_rejects_iff (doc : Doc) (defs : List (List VarDef)) (vars : Var
       · cases h
     · rintro ⟨h0, hall⟩
       rw [if_pos ⟨h0, hempty.mpr hall⟩]
+
+theorem pipeline_rejects_iff (doc : Doc) (defs : List (List VarDef)) (vars : Vars) (hv : ValidDeclV doc defs vars)
+    (n : Nat) (filter : Option String) (defaultErrors : Nat) :
+    (∀ e, pipeline doc.fuel n filter doc defs vars defaultErrors ≠ .raised e) ∧
+    ((pipeline doc.fuel n filter doc defs vars defaultErrors).depthRejected = true ↔
+      ∃ i op, doc.ops[i]? = some op ∧ opSelected filter op = true ∧ depthV doc defs vars i op > n) ∧
+    (pipeline doc.fuel n filter doc defs vars defaultErrors = .executed ↔
+      defaultErrors = 0 ∧ ∀ i op, doc.ops[i]? = some op → opSelected filter op = true → depthV doc defs vars i op ≤ n) :=
+  outcome_generic doc.ops (depthV doc defs vars) n filter _
+    (ruleV_eq_expected doc defs vars (validV_of_decl hv) n filter doc.fuel (Nat.le_refl _)) defaultErrors
+
+/-! ### arbitrary JSON request variables — including requests whose variables do NOT coerce -/
+
+/-- what `ruleR` needs: for every operation, the view of the variables the rule evaluates its directives with
+    (the coerced ones, or the RAW request variables when they do not coerce for that operation) makes every
+    directive variable available -/
+def ValidDeclR (doc : Doc) (defs : List (List VarDefR)) (raw : RawVars) : Prop :=
+  UniqueNames doc.frags ∧ Acyclic doc.frags ∧ ∀ i op, doc.ops[i]? = some op →
+    boundL (effectiveVarsR (defs.getD i []) raw) op.sels = true ∧
+    ∀ f ∈ doc.frags, boundL (effectiveVarsR (defs.getD i []) raw) f.sels = true
+
+/-- specified depth of the i-th operation under the variables the rule evaluates it with -/
+def depthR (doc : Doc) (defs : List (List VarDefR)) (raw : RawVars) (i : Nat) (op : Op) : Nat :=
+  depth doc (effectiveVarsR (defs.getD i []) raw) op
+
+theorem ruleR_eq_expected (doc : Doc) (defs : List (List VarDefR)) (raw : RawVars) (hv : ValidDeclR doc defs raw)
+    (limit : Nat) (filter : Option String) (fuel : Nat) (hfuel : doc.fuel ≤ fuel) :
+    ruleR fuel limit filter doc defs raw = .ok (expected (depthR doc defs raw) limit filter 0 doc.ops) := by
+  unfold ruleR
+  apply ruleLoop_eq _ (depthR doc defs raw) limit filter doc.ops 0
+  intro j op hop
+  simp only [Nat.zero_add]
+  have h := hv.2.2 j op hop
+  exact measured_eq_depth_op doc _ (acyclic_complete doc.frags hv.1 hv.2.1) h.2 op (List.mem_of_getElem? hop) h.1 fuel hfuel
+
+/-- **flags_iff_raw** — arbitrary JSON request variables, coercible for some operations and not for others:
+    nothing raised, and the i-th operation is reported iff it is selected and deeper than the limit under the
+    variables the rule evaluates it with. -/
+theorem flags_iff_raw (doc : Doc) (defs : List (List VarDefR)) (raw : RawVars) (hv : ValidDeclR doc defs raw)
+    (limit : Nat) (filter : Option String) :
+    ∃ errs, ruleR doc.fuel limit filter doc defs raw = .ok errs ∧
+      ∀ (i : Nat) (op : Op), doc.ops[i]? = some op →
+        ((∃ d, (i, d) ∈ errs) ↔ (opSelected filter op = true ∧ depthR doc defs raw i op > limit)) := by
+  refine ⟨_, ruleR_eq_expected doc defs raw hv limit filter doc.fuel (Nat.le_refl _), ?_⟩
+  intro i op hi
+  constructor
+  · rintro ⟨d, hd⟩
+    obtain ⟨o, _, h2, h3, h4, _⟩ := (mem_expected _ limit filter doc.ops 0 i d).mp hd
+    simp [hi] at h2; subst h2
+    exact ⟨h3, h4⟩
+  · rintro ⟨h3, h4⟩
+    exact ⟨_, (mem_expected _ limit filter doc.ops 0 i _).mpr ⟨op, by omega, by simpa using hi, h3, h4, rfl⟩⟩
+
+/-- **flags_uncoercible** — the case the seeded change got wrong: an operation whose variables do NOT coerce
+    (`coerce_variable_values` raises) is still measured — with the RAW request variables (by truthiness) — and is
+    reported iff selected and deeper than the limit under them. It is never skipped. -/
+theorem flags_uncoercible (doc : Doc) (defs : List (List VarDefR)) (raw : RawVars) (hv : ValidDeclR doc defs raw)
+    (limit : Nat) (filter : Option String) (i : Nat) (op : Op) (hi : doc.ops[i]? = some op)
+    (hfail : coerceRaw (defs.getD i []) raw = none) :
+    ∃ errs, ruleR doc.fuel limit filter doc defs raw = .ok errs ∧
+      ((∃ d, (i, d) ∈ errs) ↔ (opSelected filter op = true ∧ depth doc (viewOf raw) op > limit)) := by
+  obtain ⟨errs, he, h⟩ := flags_iff_raw doc defs raw hv limit filter
+  refine ⟨errs, he, ?_⟩
+  have hd : depthR doc defs raw i op = depth doc (viewOf raw) op := by
+    unfold depthR effectiveVarsR
+    rw [hfail]
+    rfl
+  rw [h i op hi, hd]
+
+/-- **pipeline_rejects_iff_raw** — `pipeline_rejects_iff` for arbitrary JSON request variables (requests whose
+    variables do not coerce for some or all operations included): nothing raised; rejected with a depth error iff a
+    selected operation is too deep under the variables the rule evaluates it with. -/
+theorem pipeline_rejects_iff_raw (doc : Doc) (defs : List (List VarDefR)) (raw : RawVars) (hv : ValidDeclR doc defs raw)
+    (n : Nat) (filter : Option String) (defaultErrors : Nat) :
+    (∀ e, pipelineR doc.fuel n filter doc defs raw defaultErrors ≠ .raised e) ∧
+    ((pipelineR doc.fuel n filter doc defs raw defaultErrors).depthRejected = true ↔
+      ∃ i op, doc.ops[i]? = some op ∧ opSelected filter op = true ∧ depthR doc defs raw i op > n) ∧
+    (pipelineR doc.fuel n filter doc defs raw defaultErrors = .executed ↔
+      defaultErrors = 0 ∧ ∀ i op, doc.ops[i]? = some op → opSelected filter op = true → depthR doc defs raw i op ≤ n) :=
+  outcome_generic doc.ops (depthR doc defs raw) n filter _
+    (ruleR_eq_expected doc defs raw hv n filter doc.fuel (Nat.le_refl _)) defaultErrors
 
 /-! ### headline theorems -/
 
